@@ -199,10 +199,24 @@ impl crate::protocol::Packetize for Target {
         buf.put_f32(self.point.coords[1]);
         buf.put_f32(self.point.coords[2]);
 
-        let (roll, pitch, yaw) = self.orientation.euler_angles();
-        buf.put_f32(roll);
-        buf.put_f32(pitch);
-        buf.put_f32(yaw);
+        // Extract the Euler angles in double precision. In single precision roll and yaw are
+        // rounding noise divided by cos(pitch) once pitch is within about a milliradian of a
+        // quarter turn, and the decoded orientation is off by up to half a turn. At the pole
+        // itself only roll -/+ yaw is defined; the quaternion gives it directly.
+        let q = UnitQuaternion::new_normalize(self.orientation.into_inner().cast::<f64>());
+        let sin_pitch = 2.0 * (q.w * q.j - q.k * q.i);
+        let (roll, pitch, yaw) = if 1.0 - sin_pitch.abs() < 1.0e-12 {
+            (
+                2.0 * q.i.atan2(q.w),
+                std::f64::consts::FRAC_PI_2.copysign(sin_pitch),
+                0.0,
+            )
+        } else {
+            q.euler_angles()
+        };
+        buf.put_f32(roll as f32);
+        buf.put_f32(pitch as f32);
+        buf.put_f32(yaw as f32);
 
         buf.put_u8(self.constraint as u8);
 
